@@ -543,8 +543,10 @@ def _parse_shape_params(region_data):
     shape_params = []
     # TODO: check zip strict=True
     for idx, (param_type, value) in enumerate(zip(shape_template, params)):
-        if shape in ('ellipse', 'box') and idx == nparams - 1:
-            param_type = 'angle'  # last parameter is always an angle
+        if (shape in ('ellipse', 'box') and idx == nparams - 1
+                and nparams % 2 == 1):
+            # the (optional) angle follows the pairs of sizes
+            param_type = 'angle'
 
         if param_type == 'coord':
             param = _parse_coord(region_type, value, frame, idx)
